@@ -320,7 +320,7 @@ func init() {
 		Modes: func(tier string) []core.Mode {
 			return []core.Mode{{Name: "plain", Variant: "plain"}, {Name: "checkptr", Variant: "checkptr", CaseDiv: 3}}
 		},
-		NumCases: func(c *core.Ctx) int { return c.Pick(8000, 200000) },
+		NumCases: func(c *core.Ctx) int { return c.Pick(16000, 400000) },
 		Run:      runC03,
 		Floors: func(a *core.Agg) []string {
 			u := readFloors(300)(a)
@@ -340,7 +340,7 @@ func init() {
 		Modes: func(tier string) []core.Mode {
 			return []core.Mode{{Name: "plain", Variant: "plain"}, {Name: "checkptr", Variant: "checkptr", CaseDiv: 3}}
 		},
-		NumCases: func(c *core.Ctx) int { return c.Pick(5000, 120000) },
+		NumCases: func(c *core.Ctx) int { return c.Pick(10000, 240000) },
 		Run:      runC04,
 		Floors: func(a *core.Agg) []string {
 			u := readFloors(300)(a)
